@@ -5,7 +5,7 @@ use std::time::{Duration, SystemTime};
 
 use crux_core::{Command, Request};
 use crux_time::command::{Time, TimerHandle, TimerOutcome};
-use crux_time::{TimeRequest, TimeResponse};
+use crux_time::{TimeRequest, TimeResponse, TimerId};
 use serde::{Deserialize, Serialize};
 use serde_json::{json, Value};
 
@@ -66,6 +66,13 @@ pub fn run_tcase(case: &TCase) -> Vec<Value> {
         .collect();
     for st in &case.steps {
         let i = st.i - 1;
+        // the id of some other timer's request, if one has been sent
+        let other_id: Option<TimerId> = timers.iter().enumerate().filter(|(j, _)| *j != i).find_map(|(_, t)| {
+            t.start.as_ref().map(|r| match r.operation {
+                TimeRequest::NotifyAt { id, .. } | TimeRequest::NotifyAfter { id, .. } => id,
+                _ => unreachable!(),
+            })
+        });
         let r = catch_unwind(AssertUnwindSafe(|| {
             let t = &mut timers[i];
             match st.a.as_str() {
@@ -88,11 +95,14 @@ pub fn run_tcase(case: &TCase) -> Vec<Value> {
                     }
                     let evs: Vec<TEvent> = t.cmd.events().collect();
                     for TEvent::Outcome(j, o) in evs {
-                        let k = match o {
-                            TimerOutcome::Completed(_) => "ev_completed",
-                            TimerOutcome::Cleared => "ev_cleared",
-                        };
-                        outs.push(json!({"k":k,"i":j+1}));
+                        match o {
+                            TimerOutcome::Completed(h) => {
+                                // (the handle's id is private; its Debug form shows it)
+                                let id: u64 = format!("{h:?}").chars().filter(char::is_ascii_digit).collect::<String>().parse().unwrap_or(0);
+                                outs.push(json!({"k":"ev_completed","i":j+1,"id":id}));
+                            }
+                            TimerOutcome::Cleared => outs.push(json!({"k":"ev_cleared","i":j+1})),
+                        }
                     }
                     let done = t.cmd.is_done();
                     json!({"e":"t","a":"poll","i":st.i,"outs":outs,"done":done})
@@ -110,6 +120,25 @@ pub fn run_tcase(case: &TCase) -> Vec<Value> {
                         }
                     };
                     json!({"e":"t","a":"fire","i":st.i,"res":res})
+                }
+                "fire_wrong" => {
+                    // the shell answers with the id of another timer (one nobody has, if the other has none yet)
+                    let res = match t.start.as_mut() {
+                        None => "n/a",
+                        Some(req) => {
+                            let own = match req.operation {
+                                TimeRequest::NotifyAt { id, .. } | TimeRequest::NotifyAfter { id, .. } => id,
+                                _ => unreachable!(),
+                            };
+                            let other = other_id.filter(|o| *o != own).unwrap_or(TimerId(own.0 + 1_000_000));
+                            let resp = match req.operation {
+                                TimeRequest::NotifyAt { .. } => TimeResponse::InstantArrived { id: other },
+                                _ => TimeResponse::DurationElapsed { id: other },
+                            };
+                            res_str(req.resolve(resp))
+                        }
+                    };
+                    json!({"e":"t","a":"fire_wrong","i":st.i,"res":res})
                 }
                 "clear" => {
                     let res = match t.handle.take() {
